@@ -97,6 +97,13 @@ fn join_stmt(r: &mut Rng, cat: &Catalog, stratum: &'static str) -> Option<Stmt> 
         let ok = if stratum == "join_f5" { class >= 3 } else { class <= 2 };
         if ok && !(i == 0 && j == 0) { pairs.push((i, j)); }
     } }
+    // keep the join output small (the driver compares bags): at most ~3000 matching pairs
+    let matches = |i: usize, j: usize| -> usize {
+        let mut m: std::collections::HashMap<&Val, usize> = std::collections::HashMap::new();
+        for row in &rt.rows { if row[j] != Val::Null { *m.entry(&row[j]).or_insert(0) += 1; } }
+        l.rows.iter().map(|row| if row[i] == Val::Null { 0 } else { *m.get(&row[i]).unwrap_or(&0) }).sum()
+    };
+    pairs.retain(|&(i, j)| matches(i, j) <= 3000);
     if pairs.is_empty() { return None; }
     let (i, j) = *r.pick(&pairs);
     let jt = match stratum { "join_outer" => *r.pick(&["left", "right", "full"]), _ => "inner" };
